@@ -1,6 +1,7 @@
 package c19
 
 import (
+	"bytes"
 	"context"
 	"fmt"
 	"log/slog"
@@ -19,11 +20,36 @@ import (
 // the race detector and corrupt the stream.  Only the handler's own
 // serialisation protects it.
 type rawWriter struct {
-	buf    []byte
-	writes int
+	buf        []byte
+	writes     int
+	firstErrAt time.Time // when the writer first returned an error
 }
 
+// Records chosen to meet a failing writer carry a marker in their message.
+var (
+	markAny   = []byte("FAULT-")
+	markPanic = []byte("FAULT-PANIC")
+	markErr   = []byte("FAULT-ERR")
+	markShort = []byte("FAULT-SHORT")
+)
+
 func (w *rawWriter) Write(p []byte) (int, error) {
+	if bytes.Contains(p, markAny) {
+		switch {
+		case bytes.Contains(p, markPanic):
+			panic(panicInjected)
+		case bytes.Contains(p, markErr):
+			if w.firstErrAt.IsZero() {
+				w.firstErrAt = time.Now()
+			}
+			return 0, errInjected
+		case bytes.Contains(p, markShort):
+			if w.firstErrAt.IsZero() {
+				w.firstErrAt = time.Now()
+			}
+			return len(p) / 2, errInjected
+		}
+	}
 	w.buf = append(w.buf, p...)
 	w.writes++
 	return len(p), nil
@@ -47,6 +73,7 @@ type planStep struct {
 	sz      int   // size class of the record's text (sizeTable)
 	calls   []int // AddAttrs calls that build the record (nil: one)
 	shared  int   // > 0: the record is the shared value number shared, handled by several goroutines
+	fault   int   // what the writer does with this record's line (faultNone, ...)
 	enabled bool  // else (rid == 0): probe Enabled(lv) on h
 }
 
@@ -222,8 +249,20 @@ func stress(args []string) error {
 			if m == 7 && rng.IntN(2) == 0 {
 				calls = []int{5, 1, 1}
 			}
-			plans[g] = append(plans[g], planStep{rid: rid, h: hh, lv: stressLevels[rng.IntN(len(stressLevels))], rec: rec,
-				msg: messages[rng.IntN(len(messages))], zeroT: rng.IntN(2) == 0, sz: sz, calls: calls})
+			step := planStep{rid: rid, h: hh, lv: stressLevels[rng.IntN(len(stressLevels))], rec: rec,
+				msg: messages[rng.IntN(len(messages))], zeroT: rng.IntN(2) == 0, sz: sz, calls: calls}
+			// Now and then the writer panics on a record (the caller recovers, as
+			// a server does per request).  Only the rounds >= 100 have records
+			// whose Write returns an error.
+			switch {
+			case rng.IntN(80) == 0:
+				step.fault, step.sz = faultPanic, 0
+			case round >= 100 && g == 0 && i == nr/2:
+				step.fault, step.sz = faultErr, 0
+			case round >= 100 && g == 1 && i == nr/2+3:
+				step.fault, step.sz = faultShort, 0
+			}
+			plans[g] = append(plans[g], step)
 		}
 		// The ids of this goroutine's handlers must be dense.
 		for nd < perG {
@@ -235,6 +274,12 @@ func stress(args []string) error {
 	}
 	spec := func(st *planStep) recordSpec {
 		attrs, msg := enlarge(st.sz, st.rec, concretise(st.rec, salt, plainGens), st.msg)
+		if st.fault != faultNone {
+			// The marker the scripted writer looks for: in an attribute value
+			// (the message may be dropped by ReplaceAttr).
+			attrs = append([]slog.Attr(nil), attrs...)
+			attrs[0] = slog.String(tag(st.rec[0]), [...]string{"", "FAULT-ERR", "FAULT-SHORT", "FAULT-PANIC"}[st.fault])
+		}
 		return recordSpec{level: slog.Level(st.lv), msg: msg, zeroT: st.zeroT, pc: st.rid%2 == 0, attrs: attrs, calls: st.calls}
 	}
 
@@ -255,6 +300,16 @@ func stress(args []string) error {
 		res   bool
 	}
 	herrs := make([][]string, ng)
+	// Calls that returned an error although their own Write was not made to
+	// fail: allowed only after the writer has returned an error to somebody
+	// (a failing writer is outside the property), and then without a line.
+	type errRet struct {
+		rid, h int
+		shared bool
+		at     time.Time
+		msg    string
+	}
+	gaveUp := make([][]errRet, ng)
 	enabled := make([][]enabledRes, ng)
 	start := make(chan struct{})
 	var wg sync.WaitGroup
@@ -278,18 +333,31 @@ func stress(args []string) error {
 				case st.enabled:
 					enabled[g] = append(enabled[g], enabledRes{st.h, st.lv, get(st.h).Enabled(ctx, slog.Level(st.lv))})
 				default:
-					if pv, panicked := vh.Try(func() {
+					var herr error
+					pv, panicked := vh.Try(func() {
 						var rec slog.Record
 						if st.shared > 0 {
 							rec = sharedVals[st.shared-1] // a copy of the value, as any caller makes
 						} else {
 							rec = spec(st).build(nil)
 						}
-						if err := get(st.h).Handle(ctx, rec); err != nil {
-							herrs[g] = append(herrs[g], fmt.Sprintf("record %d: %v", st.rid, err))
+						herr = get(st.h).Handle(ctx, rec)
+					})
+					switch {
+					case st.fault == faultPanic && panicked && pv == any(panicInjected):
+						// the writer's panic reached the caller, who recovers
+					case st.fault == faultPanic && !panicked && herr != nil:
+						gaveUp[g] = append(gaveUp[g], errRet{st.rid, st.h, st.shared > 0, time.Now(), herr.Error()})
+					case st.fault == faultPanic:
+						herrs[g] = append(herrs[g], fmt.Sprintf("record %d: the writer panicked, the panic must reach the caller (got error %v, panic %v)", st.rid, herr, pv))
+					case st.fault != faultNone:
+						if panicked || herr == nil {
+							herrs[g] = append(herrs[g], fmt.Sprintf("record %d: the writer returned an error, Handle must return an error (got error %v, panic %v)", st.rid, herr, pv))
 						}
-					}); panicked {
+					case panicked:
 						herrs[g] = append(herrs[g], fmt.Sprintf("record %d: panic: %v", st.rid, pv))
+					case herr != nil:
+						gaveUp[g] = append(gaveUp[g], errRet{st.rid, st.h, st.shared > 0, time.Now(), herr.Error()})
 					}
 				}
 			}
@@ -318,11 +386,32 @@ func stress(args []string) error {
 			res.Mismatch(base+" Handle failed", e, map[string]any{"stage": "T"})
 		}
 	}
+	// Error returns are legitimate only after the first Write error, and the
+	// call must not have written anything.
+	nGaveUp := 0
+	noLine := map[int]bool{}
+	for g := range gaveUp {
+		for _, e := range gaveUp[g] {
+			if w.firstErrAt.IsZero() || !e.at.After(w.firstErrAt) {
+				res.Mismatch(base+" Handle failed", fmt.Sprintf("record %d: Handle returned %q although no Write had failed before", e.rid, e.msg), map[string]any{"stage": "T"})
+				continue
+			}
+			nGaveUp++
+			if e.shared {
+				sharedWant[e.rid][e.h]--
+			} else {
+				noLine[e.rid] = true
+			}
+		}
+	}
+	nFaults := 0
 	byRID := map[int]*planStep{}
 	for g := range plans {
 		for i := range plans[g] {
-			if st := &plans[g][i]; st.rid != 0 && st.shared == 0 {
+			if st := &plans[g][i]; st.rid != 0 && st.shared == 0 && st.fault == faultNone {
 				byRID[st.rid] = st
+			} else if st.fault != faultNone {
+				nFaults++
 			}
 		}
 	}
@@ -437,6 +526,10 @@ func stress(args []string) error {
 	missing, dup := 0, 0
 	for rid := range byRID {
 		switch n := matched[rid]; {
+		case noLine[rid] && n > 0:
+			res.Mismatch(fmt.Sprintf("%s record %d", base, rid), fmt.Sprintf("Handle returned an error for the record, yet it has %d line(s) in the output", n), map[string]any{"stage": "T"})
+		case noLine[rid]:
+			// it said so
 		case n == 0:
 			missing++
 			res.Mismatch(fmt.Sprintf("%s record %d", base, rid), "the record has no line in the output", map[string]any{"stage": "T", "handler": byRID[rid].h})
@@ -467,7 +560,7 @@ func stress(args []string) error {
 		return err
 	}
 	return res.Close(map[string]any{"records": len(byRID), "lines": len(lines), "write_calls": w.writes, "handlers": len(hp),
-		"bad_lines": bad, "shared_record_lines": nSharedLines, "missing": missing, "duplicated": dup, "enabled_probes": nen, "events": tr.N,
+		"bad_lines": bad, "writer_faults": nFaults, "error_returns_after_a_writer_error": nGaveUp, "shared_record_lines": nSharedLines, "missing": missing, "duplicated": dup, "enabled_probes": nen, "events": tr.N,
 		"distinct_nontrivial": len(byRID)})
 }
 
